@@ -302,9 +302,6 @@ func modelInput(c *schemaCase, fuel int) (string, []string, string) {
 			if _, ok := done[r]; ok {
 				continue
 			}
-			if !strings.HasPrefix(r, "#/definitions/") || strings.Contains(strings.TrimPrefix(r, "#/definitions/"), "/") {
-				return "", nil, "reference outside #/definitions/<name>: " + r
-			}
 			root, _ := parseSchema(c.Schema)
 			w := new(spec.Schema)
 			w.Ref = spec.MustCreateRef(r)
@@ -394,8 +391,8 @@ func unsupportedRefs(raw []byte) string {
 			for k, el := range t {
 				if k == "$ref" {
 					if r, ok := el.(string); ok {
-						if !strings.HasPrefix(r, "#/definitions/") || strings.Contains(strings.TrimPrefix(r, "#/definitions/"), "/") {
-							why = "reference outside #/definitions/<name>: " + r
+						if r == "#" || r == "" {
+							why = "reference to the document root: " + r
 						}
 						continue
 					}
